@@ -823,14 +823,23 @@ def conc_oracle(case_text, real_lines):
                 if c[0] in ("remove", "remove_range") and (c[0] == "remove_range" or c[1] == k):
                     vals.add(None)
         return vals
+    # every content the case mentions, by hash: a read must return one of them WHOLE
+    known = {}
+    for l in case_text.splitlines():
+        t = l.split()
+        if len(t) >= 2 and t[0] == "orphan":
+            cont = parse_chunks(t[1]); known[HASH(cont)] = cont
+        for i, w in enumerate(t):
+            if w in ("put", "abort") and i + 1 < len(t):
+                cont = parse_chunks(t[i + 2] if i + 2 < len(t) else ""); known[HASH(cont)] = cont
     for (tid, ci), res in results.items():
         c = calls[tid][ci]
         if res == "err:panic":
             fails.append(("nofail", f"t{tid} call {ci} `{' '.join(c)}` panicked"))
-        if c[0] in ("get", "size"):
+        if c[0] in ("get", "size", "reader", "range"):
             s0, s1 = started.get((tid, ci), 0), ended.get((tid, ci), 10**9)
             vals = value_sets(c[1], s0, s1)
-            if res.startswith("err:") and res != "err:BlobDataMissing" and c[0] == "get" and any(v and v[0] in sabotaged for v in vals):
+            if res.startswith("err:") and res != "err:BlobDataMissing" and c[0] in ("get", "reader", "range") and any(v and v[0] in sabotaged for v in vals):
                 pass                                   # reading a blob the case itself obstructed
             elif res.startswith("err:"):
                 fails.append(("read_atomic", f"t{tid} `{' '.join(c)}` (steps {s0}..{s1}) failed: {res}"))
@@ -841,9 +850,10 @@ def conc_oracle(case_text, real_lines):
                 if int(res[5:]) not in {v[1] for v in vals if v}:
                     fails.append(("read_atomic", f"t{tid} `{' '.join(c)}` = {res}, sizes held {vals}"))
             elif res.startswith("bytes:"):
+                ok = {"bytes:" + show_content(known[v[0]]) for v in vals if v and v[0] in known}
                 ln = int(res[6:].split(":")[0])
-                if ln not in {v[1] for v in vals if v}:
-                    fails.append(("read_atomic", f"t{tid} `{' '.join(c)}` = {res}, values held {vals}"))
+                if (res not in ok) if ok else (ln not in {v[1] for v in vals if v}):
+                    fails.append(("read_atomic", f"t{tid} `{' '.join(c)}` (steps {s0}..{s1}) = {res}: not the whole content of any value the key held during the call {sorted(ok)}"))
     return fails
 
 
